@@ -26,6 +26,11 @@ Definition mvar_val (t : target) (v : mvar) : bool :=
 (* BuildTarget.BuildCouldModifyTarget() *)
 Definition could_modify (w : wrapper) (t : target) : bool := beval (mvar_val t) (w_could_modify w).
 
+(* What the build step really does, whatever BuildCouldModifyTarget says: it runs the post-build function if there is one
+   and adds the files found in the output directories if there are any (build_step.go: runPostBuildFunction,
+   addOutputDirectoriesToBuildOutput, addOutDirOutsFromMetadata).  This is the notion the property is stated with. *)
+Definition build_can_modify (t : target) : bool := t_post_build t || negb (is_nil (t_output_dirs t)).
+
 Definition wvar_val (rt pb cm : bool) (v : wvar) : bool :=
   match v with WRuntime => rt | WPostBuild => pb | WCouldModify => cm end.
 
@@ -69,14 +74,13 @@ Section Machine.
     end.
 
   (* The histories the build can produce: once a hash has been memoised, the attributes of a target change only if
-     the build could modify it (BuildCouldModifyTarget before and after the change: neither a post-build function nor
-     output directories can be removed).  Before anything is memoised (parsing, the pre-build function) every change is
-     allowed. *)
+     the build can modify it (it has a post-build function or output directories, before and after the change: neither
+     can be removed).  Before anything is memoised (parsing, the pre-build function) every change is allowed. *)
   Fixpoint valid (st : mstate) (evs : list event) : Prop :=
     match evs with
     | [] => True
     | EvSet t' :: r =>
-        (snd st = None \/ (could_modify w (fst st) = true /\ could_modify w t' = true)) /\ valid (t', snd st) r
+        (snd st = None \/ (build_can_modify (fst st) = true /\ build_can_modify t' = true)) /\ valid (t', snd st) r
     | EvCall rt pb :: r => valid (fst st, snd (call rt pb st)) r
     end.
 End Machine.
